@@ -1,7 +1,8 @@
 (* C11 property theorems: statements only, each closed by `exact`, pinned by `Check`, with its
    assumptions printed.  Model: coq/C11/Model_C11.v (transliteration of boa_string). *)
 From Coq Require Import NArith List Bool Arith.
-From C11 Require Import Model_C11 Proofs_C11 ProofsB_C11 ProofsC_C11.
+From C11 Require Import Model_C11 Proofs_C11 ProofsB_C11 ProofsC_C11 ModelD_C11 Deep_C11 Arms_C11 ArmsPin_C11.
+From Gen Require StrArms.
 Import ListNotations.
 Local Open Scope N_scope.
 
@@ -270,6 +271,66 @@ Check lex_cmp_characterisation : forall a b, lex_cmp a b = Lt <->
   (exists t, t <> [] /\ b = a ++ t) \/
   (exists p x y ta tb, a = p ++ x :: ta /\ b = p ++ y :: tb /\ x < y).
 Print Assumptions lex_cmp_characterisation.
+
+(* ---- deepening round ---- *)
+
+(* TIE: the arm table regenerated from core/string/src/*.rs on this run (tools/gen_c11.py -> Gen/StrArms.v: every modelled
+   function, each representation arm with a fingerprint of its tokens) equals the table the model was written against, and every
+   operation in it has a model.  Any edit to a modelled arm breaks this theorem before the correspondence has to find an input. *)
+Theorem arm_table_pinned : StrArms.arms = Arms_C11.expected_arms /\ all_modelled StrArms.arms = true.
+Proof. exact arm_table_lemma. Qed.
+Check arm_table_pinned : StrArms.arms = Arms_C11.expected_arms /\ all_modelled StrArms.arms = true.
+Print Assumptions arm_table_pinned.
+
+(* to_number: its only representation-specialised step is to_std_string; for ANY StringNumericValue function on the std String *)
+Theorem to_number_repr_indep : forall (X : Type) (nan : X) (snv : list N -> X) r, wf r ->
+  to_number nan snv r = spec_to_number nan snv (units r).
+Proof. exact (@to_number_spec). Qed.
+Check to_number_repr_indep : forall (X : Type) (nan : X) (snv : list N -> X) r, wf r ->
+  to_number nan snv r = spec_to_number nan snv (units r).
+Print Assumptions to_number_repr_indep.
+
+(* Display for JsStrDisplayEscaped (to_std_string_escaped): the Latin-1 fast arm writes what the code-point arm would *)
+Theorem display_escaped_repr_indep : forall r, wf r -> display_escaped r = spec_display_escaped (units r).
+Proof. exact display_escaped_spec. Qed.
+Check display_escaped_repr_indep : forall r, wf r -> display_escaped r = spec_display_escaped (units r).
+Print Assumptions display_escaped_repr_indep.
+
+(* to_std_string_with_surrogates / map_valid_segments depend only on the units; mapping with the identity gives the string back *)
+Theorem valid_segments_repr_indep : forall r, wf r ->
+  to_std_string_with_surrogates r = spec_with_surrogates (units r) /\
+  (forall table f, units (map_valid_segments table f r) = spec_map_valid_segments f (units r)) /\
+  (forall table, units (map_valid_segments table (fun s => s) r) = units r).
+Proof. exact valid_segments_lemma. Qed.
+Check valid_segments_repr_indep : forall r, wf r ->
+  to_std_string_with_surrogates r = spec_with_surrogates (units r) /\
+  (forall table f, units (map_valid_segments table f r) = spec_map_valid_segments f (units r)) /\
+  (forall table, units (map_valid_segments table (fun s => s) r) = units r).
+Print Assumptions valid_segments_repr_indep.
+
+(* CommonJsStringBuilder::build_from_latin1: when it succeeds the string has the pushed units (all ASCII), as build() has *)
+Theorem build_from_latin1_spec : forall segs r, Forall seg_wf segs -> common_build_from_latin1 segs = Some r ->
+  units r = flat_map seg_units segs /\ forallb (fun c => c <? 128) (flat_map seg_units segs) = true /\
+  units r = units (common_build segs).
+Proof. exact build_from_latin1_lemma. Qed.
+Check build_from_latin1_spec : forall segs r, Forall seg_wf segs -> common_build_from_latin1 segs = Some r ->
+  units r = flat_map seg_units segs /\ forallb (fun c => c <? 128) (flat_map seg_units segs) = true /\
+  units r = units (common_build segs).
+Print Assumptions build_from_latin1_spec.
+
+(* THE PROPERTY, continued: same code units => the newly modelled operations do not tell two representations apart either *)
+Theorem indistinguishable_deep : forall r1 r2, wf r1 -> wf r2 -> units r1 = units r2 ->
+  (forall (X : Type) (nan : X) snv, to_number nan snv r1 = to_number nan snv r2) /\
+  display_escaped r1 = display_escaped r2 /\
+  to_std_string_with_surrogates r1 = to_std_string_with_surrogates r2 /\
+  (forall table f, units (map_valid_segments table f r1) = units (map_valid_segments table f r2)).
+Proof. exact indistinguishable_deep_lemma. Qed.
+Check indistinguishable_deep : forall r1 r2, wf r1 -> wf r2 -> units r1 = units r2 ->
+  (forall (X : Type) (nan : X) snv, to_number nan snv r1 = to_number nan snv r2) /\
+  display_escaped r1 = display_escaped r2 /\
+  to_std_string_with_surrogates r1 = to_std_string_with_surrogates r2 /\
+  (forall table f, units (map_valid_segments table f r1) = units (map_valid_segments table f r2)).
+Print Assumptions indistinguishable_deep.
 
 (* the hypotheses are satisfiable, and the two buffer kinds really are different values *)
 Example wf_latin1_ex : wf (Latin1 [97; 233; 255]).
